@@ -89,40 +89,52 @@ theorem ensurePar_run (c : Cfg) (f : Nat) (pp : Str) (s : HC) :
     | none => rfl
     | some p => simp only; split <;> rfl
 
-/-- every node resolving in `s'` resolved at the same place in `s` with the same id, or has no id -/
-def Keep (s s' : HC) : Prop :=
-  ∀ q m, res s' q = some m → (res s q = some m ∧ (s'.nd m).oid = (s.nd m).oid) ∨ (s'.nd m).oid = none
+/-- every node resolving in `s'` resolved at the same place in `s` with the same id, or is an id-less
+    node at a prefix of `ks` (an auto-created folder) -/
+def Keep (s s' : HC) (ks : List Str) : Prop :=
+  ∀ q m, res s' q = some m →
+    (res s q = some m ∧ (s'.nd m).oid = (s.nd m).oid) ∨ (q <+: ks ∧ (s'.nd m).oid = none)
 
-theorem Keep.refl (s : HC) : Keep s s := fun _ _ h => Or.inl ⟨h, rfl⟩
+theorem Keep.refl (s : HC) (ks : List Str) : Keep s s ks := fun _ _ h => Or.inl ⟨h, rfl⟩
 
-theorem Keep.trans {s s1 s2 : HC} (h1 : Keep s s1) (h2 : Keep s1 s2) : Keep s s2 := by
+theorem Keep.trans {s s1 s2 : HC} {ks : List Str} (h1 : Keep s s1 ks) (h2 : Keep s1 s2 ks) : Keep s s2 ks := by
   intro q m hm
   rcases h2 q m hm with ⟨a, b⟩ | a
-  · rcases h1 q m a with ⟨a', b'⟩ | a'
+  · rcases h1 q m a with ⟨a', b'⟩ | ⟨a', b'⟩
     · exact Or.inl ⟨a', b.trans b'⟩
-    · exact Or.inr (b.trans a')
+    · exact Or.inr ⟨a', b.trans b'⟩
   · exact Or.inr a
 
-theorem Keep.chain {s s' : HC} (h : Keep s s') (ks : List Str) : ChainKeep s s' ks := fun q _ m hm => h q m hm
+theorem Keep.mono {s s' : HC} {ks ks' : List Str} (h : Keep s s' ks) (hp : ks <+: ks') : Keep s s' ks' := by
+  intro q m hm
+  rcases h q m hm with a | ⟨a, b⟩
+  · exact Or.inl a
+  · exact Or.inr ⟨a.trans hp, b⟩
 
-/-- what parent auto-creation guarantees -/
-structure EnsPost (c : Cfg) (s s' : HC) : Prop where
+theorem DelPost.keep {c : Cfg} {s s' : HC} (h : DelPost c s s') (ks : List Str) : Keep s s' ks := by
+  intro q m hm
+  rcases h.shrink q with a | a
+  · rw [a] at hm; simp at hm
+  · exact Or.inl ⟨by rw [← a]; exact hm, (h.fields m).2.1⟩
+
+/-- what parent auto-creation at `ks` guarantees -/
+structure EnsPost (c : Cfg) (s s' : HC) (ks : List Str) : Prop where
   coh : Coherent c s'
   frameX : FrameX s s' (fun m => s.heap.length ≤ m)
-  keep : Keep s s'
+  keep : Keep s s' ks
   idsub : ∀ e, e ∈ s'.idmap → e ∈ s.idmap
 
-theorem EnsPost.refl {c : Cfg} {s : HC} (hc : Coherent c s) : EnsPost c s s :=
-  ⟨hc, FrameX.refl s _, Keep.refl s, fun _ h => h⟩
+theorem EnsPost.refl {c : Cfg} {s : HC} (hc : Coherent c s) (ks : List Str) : EnsPost c s s ks :=
+  ⟨hc, FrameX.refl s _, Keep.refl s ks, fun _ h => h⟩
 
-theorem EnsPost.step {c : Cfg} {s s1 s2 : HC} {E : Nat → Prop} (h1 : EnsPost c s s1) (coh2 : Coherent c s2)
-    (f2 : FrameX s1 s2 E) (hE : ∀ m, E m → s.heap.length ≤ m) (k2 : Keep s1 s2)
-    (i2 : ∀ e, e ∈ s2.idmap → e ∈ s1.idmap) : EnsPost c s s2 :=
+theorem EnsPost.step {c : Cfg} {s s1 s2 : HC} {E : Nat → Prop} {ks : List Str} (h1 : EnsPost c s s1 ks) (coh2 : Coherent c s2)
+    (f2 : FrameX s1 s2 E) (hE : ∀ m, E m → s.heap.length ≤ m) (k2 : Keep s1 s2 ks)
+    (i2 : ∀ e, e ∈ s2.idmap → e ∈ s1.idmap) : EnsPost c s s2 ks :=
   ⟨coh2, h1.frameX.trans (f2.mono hE), h1.keep.trans k2, fun e he => h1.idsub e (i2 e he)⟩
 
 /-- allocation as an `EnsPost` step -/
-theorem EnsPost.alloc {c : Cfg} {s : HC} (hc : Coherent c s) (n : Node) :
-    EnsPost c s { s with heap := s.heap ++ [n] } := by
+theorem EnsPost.alloc {c : Cfg} {s : HC} (hc : Coherent c s) (n : Node) (ks : List Str) :
+    EnsPost c s { s with heap := s.heap ++ [n] } ks := by
   refine ⟨hc.alloc n, ⟨by simp, ?_, ?_, fun e he => Or.inl he⟩, ?_, fun e he => he⟩
   · intro m hm _ _
     rw [nd_alloc]; simp [Nat.ne_of_lt hm]
@@ -135,33 +147,36 @@ theorem EnsPost.alloc {c : Cfg} {s : HC} (hc : Coherent c s) (n : Node) :
     have := hc.valid ⟨q, hm⟩
     simp [Nat.ne_of_lt this]
 
-/-- the core step for a fresh, childless, id-less node, as an `EnsPost` step -/
-theorem corePost_fresh {c : Cfg} {sb sc : HC} {init : List Str} {j' : Nat} (hcb : Coherent c sb)
-    (hch : (sb.nd j').children = []) (hoid : (sb.nd j').oid = none) (cp : CorePost c sb init j' sc) :
-    (∀ m, InSub sb j' m → m = j') ∧ Keep sb sc ∧ (∀ e, e ∈ sc.idmap → e ∈ sb.idmap) := by
-  have hin : ∀ m, InSub sb j' m → m = j' := by
-    rintro m ⟨r, hr⟩
+/-- the linking step for a fresh, childless, id-less node, as an `EnsPost` step -/
+theorem corePost_fresh {c : Cfg} {sb sc : HC} {init : List Str} {b : Str} {j' : Nat} (hcb : Coherent c sb)
+    (hch : (sb.nd j').children = []) (hoid : (sb.nd j').oid = none) (cp : CorePost c sb init b j' sc) :
+    (∀ m, InSub sb j' m → m = j') ∧ Keep sb sc (init ++ [b]) ∧ (∀ e, e ∈ sc.idmap → e ∈ sb.idmap) := by
+  have hin : ∀ r m, resFrom sb j' r = some m → r = [] ∧ m = j' := by
+    intro r m hr
     cases r with
-    | nil => simp [resFrom] at hr; exact hr.symm
+    | nil => simp [resFrom] at hr; exact ⟨rfl, hr.symm⟩
     | cons k ks => simp [resFrom, hch, dget] at hr
+  have hin' : ∀ m, InSub sb j' m → m = j' := fun m ⟨r, hr⟩ => (hin r m hr).2
   have hoc : (sc.nd j').oid = none := by rw [cp.oid_same]; exact hoid
-  refine ⟨hin, ?_, ?_⟩
+  refine ⟨hin', ?_, ?_⟩
   · intro q m hm
-    rcases cp.shrink q m hm with h | h
+    rcases cp.shrink q m hm with h | ⟨r, hq, hr⟩
     · exact Or.inl ⟨h, cp.oid_same m⟩
-    · rw [hin m h]; exact Or.inr hoc
+    · obtain ⟨hr0, hmj⟩ := hin r m hr
+      subst hr0; subst hmj
+      exact Or.inr ⟨by rw [hq]; simp, hoc⟩
   · intro e he
     rcases cp.frameX.ids e he with h | h
     · exact h
     · exfalso
-      have : e.2 = j' := hin e.2 h
+      have : e.2 = j' := hin' e.2 h
       have hs := cp.coh.map_sound (o := e.1) (n := e.2) he
       rw [this, hoc] at hs
       simp at hs
 
 theorem ensurePar_spec {c : Cfg} (g : CfgGood c) : ∀ (f : Nat) (s : HC) (ks : List Str), KsOk c ks → Coherent c s →
     ∀ out, ensurePar c f (canon c.sep ks) s = out →
-      EnsPost c s out.1 ∧ (∀ j, out.2 = .ok j → res out.1 ks = some j) ∧ (ks.length ≤ f → out.2 ≠ .error .fuel) := by
+      EnsPost c s out.1 ks ∧ (∀ j, out.2 = .ok j → res out.1 ks = some j) ∧ (ks.length ≤ f → out.2 ≠ .error .fuel) := by
   intro f
   induction f with
   | zero =>
@@ -169,12 +184,12 @@ theorem ensurePar_spec {c : Cfg} (g : CfgGood c) : ∀ (f : Nat) (s : HC) (ks : 
     rw [ensurePar_run, getNode_canon g s hk] at hout
     -- with no budget left `__insert_node` stops at once; the allocated node stays unlinked
     have hmk : ∀ out, makeNodeWith c (insertNode c 0) .dir (canon c.sep ks) none s = out →
-        EnsPost c s out.1 ∧ (∀ j, out.2 = .ok j → res out.1 ks = some j) := by
+        EnsPost c s out.1 ks ∧ (∀ j, out.2 = .ok j → res out.1 ks = some j) := by
       intro out hout
       rw [makeNodeWith_run] at hout
       simp only [insertNode, raise_run] at hout
       subst hout
-      exact ⟨EnsPost.alloc hc _, fun j h => by simp at h⟩
+      exact ⟨EnsPost.alloc hc _ ks, fun j h => by simp at h⟩
     cases hr : res s ks with
     | none =>
       rw [hr] at hout
@@ -191,12 +206,12 @@ theorem ensurePar_spec {c : Cfg} (g : CfgGood c) : ∀ (f : Nat) (s : HC) (ks : 
         rw [this] at hr; simp at hr; subst hr
         rw [hc.root_type] at hf; simp at hf
       · rw [if_neg hf] at hout; subst hout
-        exact ⟨EnsPost.refl hc, fun j h => by cases h; exact hr, fun _ => by simp⟩
+        exact ⟨EnsPost.refl hc ks, fun j h => by cases h; exact hr, fun _ => by simp⟩
   | succ f ih =>
     intro s ks hk hc out hout
     rw [ensurePar_run, getNode_canon g s hk] at hout
     have hmk : ks ≠ [] → ∀ out, makeNodeWith c (insertNode c (f + 1)) .dir (canon c.sep ks) none s = out →
-        EnsPost c s out.1 ∧ (∀ j, out.2 = .ok j → res out.1 ks = some j) ∧
+        EnsPost c s out.1 ks ∧ (∀ j, out.2 = .ok j → res out.1 ks = some j) ∧
           (ks.length ≤ f + 1 → out.2 ≠ .error .fuel) := by
       intro hne out hout
       obtain ⟨init, b, rfl⟩ : ∃ init b, ks = init ++ [b] := by
@@ -212,58 +227,83 @@ theorem ensurePar_spec {c : Cfg} (g : CfgGood c) : ∀ (f : Nat) (s : HC) (ks : 
       have hnroot : nnode.isRoot = false := by rw [← hnn]
       have hca : Coherent c { s with heap := s.heap ++ [nnode] } := hc.alloc nnode
       have hsuba : Sub c { s with heap := s.heap ++ [nnode] } s.heap.length := Sub.fresh hc nnode hnch hnroot
-      have epa : EnsPost c s { s with heap := s.heap ++ [nnode] } := EnsPost.alloc hc nnode
+      have epa : EnsPost c s { s with heap := s.heap ++ [nnode] } (init ++ [b]) := EnsPost.alloc hc nnode _
       have hlen_a : ({ s with heap := s.heap ++ [nnode] } : HC).heap.length = s.heap.length + 1 := by simp
-      rw [bind_run, hsplit_canon_snoc g hk] at hout
-      simp only at hout
-      -- the parent, recursively
-      obtain ⟨epb, hjb, hfb⟩ := ih { s with heap := s.heap ++ [nnode] } init hk.left hca _ rfl
-      cases hens : ensurePar c f (canon c.sep init) { s with heap := s.heap ++ [nnode] } with
-      | mk sb rb =>
-        rw [hens] at hout epb hjb hfb
-        simp only at epb hjb hfb
-        have ep_sb : EnsPost c s sb :=
-          epa.step epb.coh epb.frameX (fun m hm => by rw [hlen_a] at hm; omega) epb.keep epb.idsub
-        cases rb with
-        | error e =>
-          simp only at hout; subst hout
-          exact ⟨ep_sb, fun j h => by simp at h, fun hl => hfb (by simp at hl; omega)⟩
-        | ok j =>
-          simp only at hout
-          have hj : res sb init = some j := hjb j rfl
-          -- the allocated node is untouched so far
-          have hndb : sb.nd s.heap.length = nnode := by
-            rw [epb.frameX.nd s.heap.length (by rw [hlen_a]; omega) (hsuba.unreach [] _ rfl) (by rw [hlen_a]; omega)]
-            rw [nd_alloc]; simp
-          have hsubb : Sub c sb s.heap.length :=
-            hsuba.frame epb.frameX (fun m ⟨r, hr⟩ hm => by
-              have := hsuba.valid_all r m hr
-              omega) epb.idsub
-          have hcore := insertTail_spec g epb.coh hsubb hk hj (fun o ho _ => by rw [hndb, hnoid] at ho; simp at ho)
-          cases htail : insertTail c s.heap.length (canon c.sep (init ++ [b])) b j sb with
-          | mk sc rc =>
-            obtain ⟨cp, hsucc, hnf⟩ := hcore _ htail
-            simp only at cp hsucc hnf
-            obtain ⟨hin, hkeep, hids⟩ := corePost_fresh epb.coh (by rw [hndb]; exact hnch) (by rw [hndb]; exact hnoid) cp
-            have ep_sc : EnsPost c s sc :=
-              ep_sb.step cp.coh cp.frameX (fun m hm => by rw [hin m hm]; exact Nat.le_refl _) hkeep hids
-            rw [htail] at hout
-            cases rc with
-            | error e => simp only at hout; subst hout; exact ⟨ep_sc, fun j h => by simp at h, fun _ => by simpa using hnf⟩
-            | ok u =>
-              simp only at hout
-              have hst := checkFull_state c s.heap.length sc
-              have hcnf := checkFull_ne_fuel c s.heap.length sc
-              cases hcf : checkFull c s.heap.length sc with
-              | mk sd rd =>
-                rw [hcf] at hout hst hcnf
-                simp only at hst hcnf
-                subst hst
-                cases rd with
-                | error e => simp only at hout; subst hout; exact ⟨ep_sc, fun j h => by simp at h, fun _ => by simpa using hcnf⟩
-                | ok u' =>
-                  simp only at hout; subst hout
-                  exact ⟨ep_sc, fun j h => by cases h; exact (hsucc rfl).1, fun _ => by simp⟩
+      have hnda : ({ s with heap := s.heap ++ [nnode] } : HC).nd s.heap.length = nnode := by rw [nd_alloc]; simp
+      rw [bind_run] at hout
+      -- eviction at the path of the folder to be created (a file in the way, or nothing)
+      obtain ⟨dpd, hokd, hnoned, _⟩ := insertPre_spec g hk hne hca hsuba
+        (fun o ho _ => by rw [hnda, hnoid] at ho; simp at ho) _ rfl
+      cases hpre : insertPre c s.heap.length (canon c.sep (init ++ [b])) { s with heap := s.heap ++ [nnode] } with
+      | mk sd rd =>
+        rw [hpre] at hout dpd hokd hnoned
+        simp only at dpd hokd hnoned
+        subst hokd
+        simp only at hout
+        rw [bind_run, hsplit_canon_snoc g hk] at hout
+        simp only at hout
+        have ep_sd : EnsPost c s sd (init ++ [b]) :=
+          epa.step dpd.coh (dpd.frameX (fun _ => False)) (fun _ h => h.elim) (dpd.keep _) dpd.idsub
+        have hsubd : Sub c sd s.heap.length := hsuba.frame (dpd.frameX (fun _ => False)) (fun _ _ h => h) dpd.idsub
+        have hndd : sd.nd s.heap.length = nnode := by rw [dpd.frame _ (hsuba.unreach [] _ rfl)]; exact hnda
+        have hlen_d : sd.heap.length = s.heap.length + 1 := by rw [dpd.len]; exact hlen_a
+        -- the parent, recursively
+        obtain ⟨epb, hjb, hfb⟩ := ih sd init hk.left dpd.coh _ rfl
+        cases hens : ensurePar c f (canon c.sep init) sd with
+        | mk sb rb =>
+          rw [hens] at hout epb hjb hfb
+          simp only at epb hjb hfb
+          have ep_sb : EnsPost c s sb (init ++ [b]) :=
+            ep_sd.step epb.coh epb.frameX (fun m hm => by rw [hlen_d] at hm; omega)
+              (epb.keep.mono (List.prefix_append _ _)) epb.idsub
+          cases rb with
+          | error e =>
+            simp only at hout; subst hout
+            exact ⟨ep_sb, fun j h => by simp at h, fun hl => by simpa using hfb (by simp at hl; omega)⟩
+          | ok j =>
+            simp only at hout
+            have hj : res sb init = some j := hjb j rfl
+            have hndb : sb.nd s.heap.length = nnode := by
+              rw [epb.frameX.nd s.heap.length (by rw [hlen_d]; omega) (hsubd.unreach [] _ rfl) (by rw [hlen_d]; omega)]
+              exact hndd
+            have hsubb : Sub c sb s.heap.length :=
+              hsubd.frame epb.frameX (fun m ⟨r, hr⟩ hm => by
+                have := hsubd.valid_all r m hr
+                omega) epb.idsub
+            have hnoneb : res sb (init ++ [b]) = none := by
+              cases hx : res sb (init ++ [b]) with
+              | none => rfl
+              | some m =>
+                exfalso
+                rcases epb.keep _ m hx with ⟨h1, _⟩ | ⟨h1, _⟩
+                · rw [hnoned] at h1; simp at h1
+                · have := h1.length_le; simp at this; omega
+            have hcore := insertTail_spec g epb.coh hsubb hk hj hnoneb
+              (fun o ho _ => by rw [hndb, hnoid] at ho; simp at ho)
+            cases htail : insertTail c s.heap.length b j sb with
+            | mk sc rc =>
+              obtain ⟨cp, hsucc, hnf⟩ := hcore _ htail
+              simp only at cp hsucc hnf
+              obtain ⟨hin, hkeep, hids⟩ := corePost_fresh epb.coh (by rw [hndb]; exact hnch) (by rw [hndb]; exact hnoid) cp
+              have ep_sc : EnsPost c s sc (init ++ [b]) :=
+                ep_sb.step cp.coh cp.frameX (fun m hm => by rw [hin m hm]; exact Nat.le_refl _) hkeep hids
+              rw [htail] at hout
+              cases rc with
+              | error e => simp only at hout; subst hout; exact ⟨ep_sc, fun j h => by simp at h, fun _ => by simpa using hnf⟩
+              | ok u =>
+                simp only at hout
+                have hst := checkFull_state c s.heap.length sc
+                have hcnf := checkFull_ne_fuel c s.heap.length sc
+                cases hcf : checkFull c s.heap.length sc with
+                | mk sd' rd' =>
+                  rw [hcf] at hout hst hcnf
+                  simp only at hst hcnf
+                  subst hst
+                  cases rd' with
+                  | error e => simp only at hout; subst hout; exact ⟨ep_sc, fun j h => by simp at h, fun _ => by simpa using hcnf⟩
+                  | ok u' =>
+                    simp only at hout; subst hout
+                    exact ⟨ep_sc, fun j h => by cases h; exact (hsucc rfl).1, fun _ => by simp⟩
     cases hr : res s ks with
     | none =>
       rw [hr] at hout
@@ -277,6 +317,6 @@ theorem ensurePar_spec {c : Cfg} (g : CfgGood c) : ∀ (f : Nat) (s : HC) (ks : 
         rw [e] at hr; simp at hr; subst hr
         rw [hc.root_type] at hf; simp at hf
       · rw [if_neg hf] at hout; subst hout
-        exact ⟨EnsPost.refl hc, fun j h => by cases h; exact hr, fun _ => by simp⟩
+        exact ⟨EnsPost.refl hc ks, fun j h => by cases h; exact hr, fun _ => by simp⟩
 
 end CS.HCache
